@@ -170,6 +170,22 @@ def gen_using(tier, rng):
                     vals.append(rng.choice(nums))
             hs.append([{"dev": rng.choice(DEVS), "using": f, "vals": vals, "semi": rng.random() < 0.3},
                        {"dev": "scr", "items": [ITEMS[10]]}])
+    # sequences of PRINT USING statements: every statement starts at the beginning of ITS format, whatever the
+    # previous one left (fewer values than fields, formats of different lengths, other devices in between)
+    multi = [S(h) for h in ("A: # B: #", "###", "##.##", "Total: ####", "<\\  \\>", "## and ## and ##", "!x!", "#,### #", "x## y##")]
+    for _ in range(3000 if tier == "thorough" else 500):
+        k = rng.randint(2, 4)
+        h = []
+        for _ in range(k):
+            f = rng.choice(multi)
+            nfields = max(1, sum(1 for i, c in enumerate(f) if c in (35, 33, 92) and (i == 0 or f[i - 1] != c)))
+            nv = rng.randint(1, 3)
+            has_str = any(c in (33, 92) for c in f)
+            vals = [rng.choice(strs) if has_str else rng.choice(nums) for _ in range(nv)]
+            h.append({"dev": rng.choice(DEVS), "using": f, "vals": vals, "semi": rng.random() < 0.2})
+            if rng.random() < 0.3:
+                h.append({"dev": rng.choice(DEVS), "items": [ITEMS[10]]})
+        hs.append(h)
     return hs
 
 
